@@ -8,6 +8,7 @@ import IsobarV.Pat.Cls.Seq1
 import IsobarV.Pat.Cls.Seq2
 import IsobarV.Pat.Cls.Scalar
 import IsobarV.Pat.Cls.Misc
+import IsobarV.Pat.Cls.Ext2
 
 namespace IsobarV.Pat
 
@@ -67,6 +68,13 @@ def clsStepExt (c : Cls) : Option ClsStep :=
   | .dictKey => some stepDictKey
   | .constP => some stepConstP
   | .tupP => some stepTuple
+  | .metropolis => some stepMetropolis
+  | .patternGeneratorAction => some stepPga
+  | .func => some stepFunc
+  | .filterByKey => some stepFilterByKey
+  | .nearestNoteInKey => some stepNearestNoteInKey
+  | .keyTonic => some stepKeyTonic
+  | .keyScale => some stepKeyScale
   | _ => Option.none
 
 /-- Classes whose `__next__` calls `reset()` on a sub-pattern: their step function receives the generic
@@ -74,6 +82,7 @@ def clsStepExt (c : Cls) : Option ClsStep :=
 def clsStepExtR (c : Cls) : Option ((Pat → Pat) → ClsStep) :=
   match c with
   | .reset => some stepResetW
+  | .sequenceAction => some stepSequenceActionW
   | _ => Option.none
 
 def clsResetExt (c : Cls) : Option (St → St) :=
@@ -114,6 +123,9 @@ def clsResetExt (c : Cls) : Option (St → St) :=
   | .randomImpulseSequence => some resetRIS
   | .markov => some resetMarkov
   | .lsystem => some resetLsystem
+  | .metropolis => some resetMetropolis
+  | .sequenceAction => some resetSequenceAction
+  | .patternGeneratorAction => some resetPga
   | _ => Option.none
 
 end IsobarV.Pat
